@@ -148,6 +148,16 @@ impl T {
             _ => self.clone(),
         }
     }
+    /// The term denoted when `Option` is read as the library converts it: `Some(t)` is `t`.
+    pub fn strip_some(&self) -> T {
+        match self {
+            T::Cmp(Tag::Some, fs) => fs[0].strip_some(),
+            T::Cons(h, t) => T::cons(h.strip_some(), t.strip_some()),
+            T::Cmp(tag, fs) => T::Cmp(*tag, fs.iter().map(|f| f.strip_some()).collect()),
+            _ => self.clone(),
+        }
+    }
+
     /// Encodes every constructor (cons, nil, compounds) as a tagged proper list, so that the
     /// term algebra is isomorphic but built from lists and atoms only (C20 twin).
     pub fn to_tagged_list(&self) -> T {
